@@ -99,3 +99,25 @@ def install(plan, obs):
             del lt.LibcstResultTransformer.on_leave
 
     return undo
+
+
+def install_codemod_fault(plan, obs):
+    """plan = {"codemod": <id>}: that codemod's _apply raises (a detector that dies, a disk error outside the per-file handlers)."""
+    import codemodder.codemods.base_codemod as bc
+
+    fired = []
+    obs.extra["faults_fired"] = fired
+    orig = bc.BaseCodemod._apply
+
+    def _apply(self, context, rules):
+        if self.id == plan["codemod"]:
+            fired.append((self.id, "codemod-raises"))
+            raise InjectedFault(f"injected: {self.id} raises while being applied")
+        return orig(self, context, rules)
+
+    bc.BaseCodemod._apply = _apply
+
+    def undo():
+        bc.BaseCodemod._apply = orig
+
+    return undo
